@@ -960,6 +960,100 @@ def m_bytearray(interp, fr, *args):
     raise Undecided("bytearray() form not modelled")
 
 
+def m_enumerate(interp, fr, it, start=0):
+    if isinstance(it, Sym):
+        raise Undecided("enumerate over a symbolic iterable")
+    return list(enumerate(interp.iterate(it), start))
+
+
+def m_zip(interp, fr, *its, **kw):
+    if any(isinstance(i, Sym) for i in its):
+        raise Undecided("zip over a symbolic iterable")
+    return list(zip(*[list(interp.iterate(i)) for i in its]))
+
+
+def m_list(interp, fr, *args):
+    if not args:
+        v = []
+    else:
+        if isinstance(args[0], Sym):
+            raise Undecided("list() of a symbolic value")
+        v = list(interp.iterate(args[0]))
+    interp.fresh_ids.add(id(v)); interp._keep(v)
+    return v
+
+
+def m_any(interp, fr, it):
+    if isinstance(it, Sym):
+        raise Undecided("any() over a symbolic iterable")
+    for x in interp.iterate(it):
+        if interp.truth(x):
+            return True
+    return False
+
+
+def m_all(interp, fr, it):
+    if isinstance(it, Sym):
+        raise Undecided("all() over a symbolic iterable")
+    for x in interp.iterate(it):
+        if not interp.truth(x):
+            return False
+    return True
+
+
+def m_sum(interp, fr, it, start=0):
+    import ast
+    if isinstance(it, Sym):
+        raise Undecided("sum() over a symbolic iterable")
+    acc = start
+    for x in interp.iterate(it):
+        acc = interp.binop(ast.Add(), acc, x)
+    return acc
+
+
+def m_min(interp, fr, *args, **kw):
+    import ast
+    vals = list(interp.iterate(args[0])) if len(args) == 1 else list(args)
+    if not any(isinstance(v, Sym) for v in vals):
+        try:
+            return min(vals, **kw)
+        except (ValueError, TypeError) as ex:
+            raise PyRaise(type(ex), str(ex))
+    cur = vals[0]
+    for v in vals[1:]:
+        if interp.truth(interp.compare(ast.Lt(), v, cur)):
+            cur = v
+    return cur
+
+
+def m_abs(interp, fr, v):
+    if isinstance(v, (SInt, SBool)):
+        t = zint(v)
+        return lower(z3.If(t >= 0, t, -t))
+    if isinstance(v, Sym):
+        raise Undecided("abs() of a symbolic non-int")
+    return abs(v)
+
+
+def m_int_from_bytes(interp, fr, b, byteorder="big", *, signed=False):
+    if not isinstance(b, Sym):
+        return int.from_bytes(b, byteorder, signed=signed)
+    segs = as_bytes(b)
+    ln = total_len(segs)
+    if not isinstance(ln, int):
+        for w in (1, 2, 4, 8):
+            if interp.ctx.entails(zint(ln) == w):
+                ln = w
+                break
+        else:
+            raise Undecided("int.from_bytes of a symbolic-length value")
+    fmt = {1: "b", 2: "h", 4: "i", 8: "q"}.get(ln)
+    if fmt is None:
+        raise Undecided("int.from_bytes width")
+    fmt = (">" if byteorder == "big" else "<") + (fmt if signed else fmt.upper())
+    return m_struct_unpack(interp, fr, fmt, b)[0]
+
+
 def m_isfinite(interp, fr, v):
     import math
     if isinstance(v, SOpaque) and v.kind == "float":
@@ -1007,6 +1101,15 @@ def base_models():
         datetime.timedelta: m_timedelta,
         divmod: m_divmod,
         bytes: m_bytes,
+        enumerate: m_enumerate,
+        zip: m_zip,
+        list: m_list,
+        any: m_any,
+        all: m_all,
+        sum: m_sum,
+        min: m_min,
+        abs: m_abs,
+        int.from_bytes: m_int_from_bytes,
         bytearray: m_bytearray,
         __import__("math").isfinite: m_isfinite,
         datetime.timezone.utc.utcoffset: lambda interp, fr, *a: datetime.timedelta(0),
